@@ -361,7 +361,7 @@ def run_check(pid, tier, seed, only=None):
         "coverage": cov, "assumptions": list(mod.ASSUMPTIONS),
         "wall_s": round(time.time() - t0, 2), "violations": len(seen),
     }
-    if only is None:
+    if only is None and not os.environ.get("VERIF_NO_EVIDENCE"):
         os.makedirs(os.path.join(HERE, "evidence"), exist_ok=True)
         with open(os.path.join(HERE, "evidence", f"{pid}.json"), "w") as f:
             json.dump(ev, f, indent=1)
